@@ -436,7 +436,14 @@ namespace occa {
 
       const std::string identifier = str();
 
-      int type = shallowPeek();
+      // An encoding prefix has to touch the quote: [L"foo"] is a string
+      //   but [L "foo"] is the identifier L followed by a string
+      int type = tokenType::none;
+      if (*fp.start == '"') {
+        type = tokenType::string;
+      } else if (*fp.start == '\'') {
+        type = tokenType::char_;
+      }
       popAndRewind();
 
       // sizeof, new, delete, throw
